@@ -42,10 +42,81 @@ def rowappend_cases(rng, n):
     return cs
 
 
+FORMS = ["dict", "vectors", "lists", "empty>>dict", "empty_dict>>dict", "t>>dict", "t>>vector", "t>>list", "t>>table"]
+
+
+def construct_cases(rng, n):
+    """every way of building a table from columns, with column lengths that agree or do not (a zero-length
+    column first, last, in the middle): the result is rectangular or the input is rejected (pure oracle stream)"""
+    cs = []
+    for form in FORMS:
+        for lens in ([2, 2], [2, 3], [3, 2], [0, 2], [2, 0], [0, 0], [1, 1, 2], [0, 1, 1], [2, 2, 2], [1], [0], []):
+            cs.append({"op": "construct", "form": form, "lens": lens})
+    for _ in range(n):
+        cs.append({"op": "construct", "form": rng.choice(FORMS),
+                   "lens": [rng.choice([0, 1, 2, 2, 3]) for _ in range(rng.randint(1, 4))]})
+    return cs
+
+
 def streams(rng, tier):
     n = 300 if tier == "quick" else 4000
     return [("histories", [{"prog": H.gen_program(rng, rng.randint(8, 35), MIX)} for _ in range(n)]),
-            ("rowappend", rowappend_cases(rng, 300 if tier == "quick" else 3000))]
+            ("rowappend", rowappend_cases(rng, 300 if tier == "quick" else 3000)),
+            ("construct", construct_cases(rng, 150 if tier == "quick" else 1500))]
+
+
+def _observe_construct(case):
+    from serif import Table, Vector
+    lens, form = case["lens"], case["form"]
+    cols = [[10 * j + i for i in range(ln)] for j, ln in enumerate(lens)]
+    names = [f"c{j}" for j in range(len(cols))]
+    d = dict(zip(names, cols))
+    import warnings
+    try:
+        with warnings.catch_warnings():
+            warnings.simplefilter("ignore")
+            if form == "dict":
+                r = Table(d)
+            elif form == "vectors":
+                r = Table([Vector(c, name=nm) for nm, c in zip(names, cols)])
+            elif form == "lists":
+                r = Table([list(c) for c in cols])
+            elif form == "empty>>dict":
+                r = Table() >> d
+            elif form == "empty_dict>>dict":
+                r = Table({}) >> d
+            else:
+                if not cols:
+                    return {"skip": "nothing to stack"}
+                base = Table({names[0]: cols[0]})
+                if form == "t>>dict":
+                    r = base >> dict(zip(names[1:], cols[1:])) if len(cols) > 1 else base
+                elif form == "t>>vector":
+                    r = base
+                    for nm, c in zip(names[1:], cols[1:]):
+                        if not isinstance(r, Table):
+                            return {"table": False}      # an earlier step was refused (not a table): stop there
+                        r = r >> Vector(c, name=nm)
+                elif form == "t>>list":
+                    r = base
+                    for c in cols[1:]:
+                        if not isinstance(r, Table):
+                            return {"table": False}
+                        r = r >> list(c)
+                else:
+                    r = base >> Table(dict(zip(names[1:], cols[1:]))) if len(cols) > 1 else base
+    except Exception as e:                                   # noqa: BLE001
+        return {"exc": type(e).__name__, "msg": str(e)[:120]}
+    if not isinstance(r, Table):
+        return {"table": False}
+    cl = [len(c) for c in r.cols()]
+    o = {"table": True, "lens": cl, "len": len(r), "shape": [int(x) for x in r.shape]}
+    try:
+        o["rows"] = [[repr(x) for x in row] for row in r]
+        o["colcells"] = [[repr(x) for x in c] for c in r.cols()]
+    except Exception as e:                                   # noqa: BLE001
+        o["iter_exc"] = f"{type(e).__name__}: {e}"[:120]
+    return o
 
 
 def _observe_rowappend(case):
@@ -75,6 +146,11 @@ def _observe_rowappend(case):
 
 
 def observe(case):
+    if case.get("op") == "construct":
+        try:
+            return _observe_construct(case)
+        except Exception as e:                               # noqa: BLE001
+            return {"broken": f"{type(e).__name__}: {e}"[:200]}
     if case.get("op") == "rowappend":
         try:
             return _observe_rowappend(case)
@@ -84,7 +160,7 @@ def observe(case):
 
 
 def emit(case, obs):
-    if case.get("op") == "rowappend":
+    if case.get("op") in ("rowappend", "construct"):
         return "(@nil tstep)"                                # decided by the oracle alone
     return H.emit_trace(case, obs)
 
@@ -92,7 +168,30 @@ def emit(case, obs):
 _heap_oracle = H.oracle_for(("C02",))
 
 
+def _oracle_construct(case, obs):
+    if "skip" in obs or "exc" in obs or not obs.get("table"):
+        return None                                          # rejected, or not a table at all: nothing was stored
+    if "broken" in obs:
+        return f"construct-observer: {obs['broken']}"
+    what = f"{case['form']} with column lengths {case['lens']}"
+    lens = obs["lens"]
+    if len(set(lens)) > 1:
+        return f"construct-ragged: {what} stored a table whose columns have lengths {lens} (len(table) = {obs['len']})"
+    n = lens[0] if lens else 0
+    if obs["len"] != n:
+        return f"construct-len: {what}: len(table) = {obs['len']} but the columns have {n} rows"
+    if lens and obs["shape"] != [n, len(lens)]:
+        return f"construct-shape: {what}: shape {obs['shape']} for {n} rows x {len(lens)} columns"
+    if "iter_exc" in obs:
+        return f"construct-rows-raise: {what}: iterating the rows raised {obs['iter_exc']}"
+    if lens and [list(r) for r in zip(*obs["colcells"])] != obs["rows"]:
+        return f"construct-rowview: {what}: rows {obs['rows']} disagree with columns {obs['colcells']}"
+    return None
+
+
 def oracle(case, obs):
+    if case.get("op") == "construct":
+        return _oracle_construct(case, obs)
     if case.get("op") != "rowappend":
         return _heap_oracle(case, obs)
     if "skip" in obs:
@@ -122,12 +221,14 @@ def oracle(case, obs):
 
 
 def shrink(case):
-    if case.get("op") == "rowappend":
+    if case.get("op") in ("rowappend", "construct"):
         return []
     return H.shrink_program(case)
 
 
 def nontrivial(case, obs):
+    if case.get("op") == "construct":
+        return len(set(case["lens"])) > 1 or 0 in case["lens"]
     if case.get("op") == "rowappend":
         return "skip" not in obs and "broken" not in obs
     st = obs.get("stats") or {}
@@ -135,6 +236,8 @@ def nontrivial(case, obs):
 
 
 def describe(case, obs, stream):
+    if case.get("op") == "construct":
+        return ["construct:" + ("rejected" if ("exc" in obs or not obs.get("table")) else "table")]
     if case.get("op") == "rowappend":
         return ["rowappend:" + ("refused" if "exc" in obs else "ok")]
     st = obs.get("stats") or {}
